@@ -211,7 +211,7 @@ def stage(rep, ctx):
             return
         rep.violation(f'C18_Wellformed (emitter protocol): {v[1]}  [{how["origin"]}]',
                       {'mode': 'emitter', 'labels': [list(l) for l in how['labels']], 'events': [list(e[:2]) for e in events],
-                       'origin': how['origin']}, {'kind': v[0], 'probe': 'emitter'})
+                       'origin': how['origin'], 'md': how.get('md')}, {'kind': v[0], 'probe': 'emitter'})
     # the design mutations: TLC must exhibit a counterexample, which the real emitter must not reproduce
     for mut in MUTATIONS:
         r = run_tlc(SPEC_DIR, f'Emitter_defect_{mut}', 'Emitter', timeout=600, workers=4)
@@ -262,6 +262,30 @@ def stage(rep, ctx):
         rep.add_tlc(f'{cfg}/simulate', r, f'{len(seen)} distinct behaviours replayed on the real emitter + bridge exporter')
     finally:
         shutil.rmtree(tmp, ignore_errors=True)
+    # metrics whose names are not identifiers (OpenTelemetry style 'frames.processed'): whatever the heartbeat facets hold, the run
+    # still ends with exactly one terminal event handed to the backend (C18_Terminated)
+    from .c16 import collect
+    dotted = collect([('frames.processed', 'counter'), ('queue-depth', 'gauge')], {'frames.processed': [1, 2], 'queue-depth': [3]})
+    for term in ('emit_complete', 'emit_stop'):
+        for with_tick in (False, True):
+            labels = [('main', 'emit_start'), ('main', 'hb_start'), ('bridge', 'export')] + ([('hb', 'tick')] if with_tick else []) + \
+                     [('main', 'hb_stop'), ('main', term), ('main', 'emit_complete'), ('main', 'run_over')]
+            rig = Rig()
+            try:
+                rig.md = dotted
+                for who, what in labels:
+                    rig.do(who, what)
+                events = list(rig.events)
+            finally:
+                rig.close()
+            nrun += 1
+            rep.case(('emitter', 'dotted-metric-names', term, with_tick))
+            v = judge(events)
+            if v is None and sum(1 for e in events if e[0] in TERMINAL) != 1:
+                v = ('no_terminal', f'a finished run handed {sum(1 for e in events if e[0] in TERMINAL)} terminal events to the backend: '
+                                    f'{[e[0] for e in events]}')
+            if v:
+                report(v, {'origin': 'run with heartbeat facets whose keys are not identifiers', 'labels': labels, 'md': 'dotted'}, events)
     if nrun < 20:
         raise MachineryError(f'only {nrun} emitter behaviours were replayed')
     rep.traces += nrun
@@ -270,6 +294,21 @@ def stage(rep, ctx):
 
 
 def replay_witness(wit):
+    if wit.get('md') == 'dotted':
+        from .c16 import collect
+        rig = Rig()
+        try:
+            rig.md = collect([('frames.processed', 'counter'), ('queue-depth', 'gauge')], {'frames.processed': [1, 2], 'queue-depth': [3]})
+            for who, what in wit['labels']:
+                rig.do(who, what)
+            events = list(rig.events)
+        finally:
+            rig.close()
+        print('events handed to client.emit():', [e[:2] for e in events])
+        v = judge(events)
+        if v is None and sum(1 for e in events if e[0] in TERMINAL) != 1:
+            v = ('no_terminal', f'a finished run handed {sum(1 for e in events if e[0] in TERMINAL)} terminal events to the backend')
+        return v
     v, _, events = replay([tuple(l) for l in wit['labels']])
     print('events handed to client.emit():', [e[:2] for e in events])
     return v
